@@ -36,6 +36,10 @@ type Op struct {
 	Defs       []Def  `json:"defs,omitempty"`
 	Fault      string `json:"fault,omitempty"` // "", "throw" (snippet throws after its definitions), "parse" (syntax error after FaultAfter definitions)
 	FaultAfter int    `json:"fault_after,omitempty"`
+	// ViaFile (def): the snippet is a FILE loaded with LoadAndRun on the VM, the way a request file is; it also has
+	// top-level variables ($app, $config) like every other such file, and (odd steps) declares its functions
+	// conditionally, i.e. when the statement runs
+	ViaFile bool `json:"via_file,omitempty"`
 }
 
 type W struct {
@@ -47,6 +51,8 @@ type W struct {
 	// NoPrep: temporary VMs are used as NewTempVM returns them (no PrepareParse before the first lookup)
 	NoPrep bool `json:"no_prepare_parse,omitempty"`
 }
+
+var fileSeq int
 
 var classNames = []string{"A", "B", "C"}
 var funcNames = []string{"fa", "fb", "fc"}
@@ -179,6 +185,9 @@ func gen(r *verifsim.Rng, tier string) (any, hx.Sched) {
 			if op.VM == 0 {
 				op.VM = 1 + r.Intn(w.Temps)
 			}
+		}
+		if op.K == "def" && op.Fault == "" && len(op.Defs) > 0 && !strings.HasPrefix(op.Defs[0].Name, "App\\") && r.Intn(4) == 0 {
+			op.ViaFile = true
 		}
 		w.Ops = append(w.Ops, op)
 	}
@@ -639,7 +648,44 @@ func step(o *hx.Outcome, w *W, sy *sys, m *model, k int, op Op, log *[]string, o
 			sy.tagOf[path+"|"+d.Name] = tags[i]
 		}
 		src := snippetFor(op.Defs, tags, op.Fault, op.FaultAfter)
-		_, failed := sy.runOn(op.VM, src, path)
+		var failed string
+		if op.ViaFile {
+			fileSeq++
+			path = filepath.Join(filepath.Dir(os.Args[0]), "c12files", fmt.Sprintf("%08d-%08d.php", os.Getpid(), fileSeq))
+			for i, d := range op.Defs {
+				sy.tagOf[path+"|"+d.Name] = tags[i]
+			}
+			body := strings.TrimPrefix(src, "<?php\n")
+			if k%2 == 1 {
+				var nb strings.Builder
+				for _, line := range strings.Split(body, "\n") {
+					if strings.HasPrefix(line, "function ") {
+						line = "if (true) { " + line + " }"
+					}
+					nb.WriteString(line + "\n")
+				}
+				body = nb.String()
+			}
+			os.MkdirAll(filepath.Dir(path), 0o755)
+			if err := os.WriteFile(path, []byte("<?php\n$app = \"app\"; $config = [1, 2];\n"+body), 0o644); err != nil {
+				panic(err)
+			}
+			nThrows := len(sy.env.Throws)
+			_, ctl := sy.vm(op.VM).LoadAndRun(path)
+			os.Remove(path)
+			if ctl != nil {
+				failed = "throw: " + first(hx.CtlStr(ctl))
+			} else {
+				for _, th := range sy.env.Throws[nThrows:] {
+					if strings.HasPrefix(th, verifsim.TaskName()+": ") {
+						failed = "throw: " + first(th)
+					}
+				}
+			}
+			o.Probe("definitions_through_a_file_loaded_with_LoadAndRun", 1)
+		} else {
+			_, failed = sy.runOn(op.VM, src, path)
+		}
 		*log = append(*log, fmt.Sprintf("%d def vm%d %v fault=%s -> %s", k, op.VM, op.Defs, op.Fault, failed))
 		if op.Fault != "" {
 			o.Fault("snippet_"+op.Fault, 1)
